@@ -123,7 +123,7 @@ PROP = {
         # years (thorough: every 8th month of all years)
         {"name": "c14b.next", "args_thorough": ["all"]},
     ],
-    "ops": c14_ops,
+    "ops": with_extra(c14_ops, eq_kinds=(5, 10)),
     "exhaustive": True,
     "rule": "streams over all 119,988 civil months x 7 week starts in the thorough tier (quick: years 1-5, 9995-9999, 1581-1583 and "
             "every 10th year): c14.weeks = week count, acceptance of every index 0..7, get_weeks, first-day number and the 7 listed "
